@@ -50,7 +50,7 @@ def generate(G):
     for d, tier in (([2], "quick"), ([2, 2], "quick"), ([1, 4], "thorough"), ([4], "thorough")):
         G.ob("c15_mse_%s" % G.sname(d), "C15", "mse", "c15::mse(s, %s)" % G.rs(d), unwind=G.numel(d) + 3, tier=tier, stubs=("powf",),
              skeleton={"dims": d, "formula": "(target - output)^2 / element count; loss = sum"}, domains="output, target D4 (element counts are powers of two: exact)")
-    for d, tier in (([2], "quick"), ([2, 2], "quick"), ([1, 2], "thorough")):
+    for d, tier in (([2], "quick"), ([2, 2], "quick"), ([1, 2], "thorough"), ([2, 1, 2], "quick"), ([1, 2, 2], "thorough")):
         G.ob("c15_ce_%s" % G.sname(d), "C15", "cross_entropy", "c15::cross_entropy(s, %s)" % G.rs(d), unwind=G.numel(d) + 3, tier=tier,
              stubs=("ln",), skeleton={"dims": d, "formula": "-target * ln(output) / leading dimension; loss = sum"},
              domains="output Dpos (ln table), target D2; tolerance 1e-9")
